@@ -49,7 +49,9 @@ def run_cancel(rep, count, mode_args, with_invalid):
         rnd = random.Random(rep.seed + 1)
         stmts = [l.strip() for l in open(CORPUS, encoding="utf-8", errors="surrogateescape") if 30 < len(l) < 160 and l[:6].lower() == "select" and ";" not in l and "--" not in l]
         with open(cases, "a") as f:
-            for n in ([5000] if count <= 5000 else [5000, 9000, 12000]):
+            # (sizes chosen to pass 1 MiB in the quick tier and 4 MiB / 16 MiB in the thorough one: a size limit on the input
+            # must not drop the tail of a script silently)
+            for n in ([5000, 14000] if count <= 5000 else [5000, 14000, 60000, 200000]):
                 parts = [rnd.choice(stmts) for _ in range(n)]
                 script = ";\n".join(parts)
                 f.write("\t".join(x.encode("utf-8", "surrogateescape").hex() for x in [script] + parts) + "\n")
